@@ -64,7 +64,10 @@ Definition pred_valid (lzw_or_flate : bool) (p : option parms) (tags : list N) (
                   (N.of_nat (length tags) =? rows) && forallb (fun t => t <? 5) tags &&
                   bytes_eqb mid (png_forward tags (png_bpp colors bpc) (N.to_nat rb) x [])
                 else if (pr =? 2)%Z then
-                  (bpc =? 8) && bytes_eqb mid (tiff_forward8 (N.to_nat rows) colors (N.to_nat rb) x)
+                  (* TIFF 6.0 §14 for every depth; x must be canonical (zero padding bits) *)
+                  let n := N.to_nat (columns * colors) in
+                  tiff_canonical_rows_b (N.to_nat rows) bpc n (N.to_nat rb) x &&
+                  bytes_eqb mid (tiff_forward (N.to_nat rows) bpc colors n (N.to_nat rb) x)
                 else false
             | _, _, _ => false
             end
